@@ -227,6 +227,10 @@ pub fn run(op: &str, t: &[&str], v: &[Val], out: &mut Out) -> bool {
             } else {
                 toprim!(out, v[1].i(), BigInt, i8: to_i8, u8: to_u8, i16: to_i16, u16: to_u16, i32: to_i32,
                     u32: to_u32, i64: to_i64, u64: to_u64, i128: to_i128, u128: to_u128, isize: to_isize, usize: to_usize);
+                // the big-to-big TryFrom pair: BigUint from (&)BigInt
+                let a = v[1].i();
+                out.named("tf_big", || Raw(match BigUint::try_from(a) { Ok(x) => x.show(), Err(_) => "E".into() }));
+                out.named("tv_big", || Raw(match BigUint::try_from(a.clone()) { Ok(x) => x.show(), Err(e) => format!("E{}", e.into_original().show()) }));
             }
         }
         "tof" => {
@@ -380,6 +384,36 @@ pub fn run(op: &str, t: &[&str], v: &[Val], out: &mut Out) -> bool {
                             b'c' => {
                                 let i2 = it.take().unwrap();
                                 out.call(|| i2.count());
+                            }
+                            // internal-iteration consumers (an iterator may override fold / rfold / nth_back ...)
+                            b'k' => {
+                                let k: usize = o[1..].parse().unwrap();
+                                out.call(|| it.as_mut().unwrap().nth_back(k));
+                            }
+                            b'F' => {
+                                let i2 = it.take().unwrap();
+                                out.call(|| i2.fold(Vec::<u64>::new(), |mut v, x| { v.push(x as u64); v }));
+                            }
+                            b'R' => {
+                                let i2 = it.take().unwrap();
+                                out.call(|| i2.rfold(Vec::<u64>::new(), |mut v, x| { v.push(x as u64); v }));
+                            }
+                            b'C' => {
+                                let i2 = it.take().unwrap();
+                                out.call(|| i2.map(|x| x as u64).collect::<Vec<u64>>());
+                            }
+                            b'V' => {
+                                let i2 = it.take().unwrap();
+                                out.call(|| i2.rev().map(|x| x as u64).collect::<Vec<u64>>());
+                            }
+                            b'S' => {
+                                let i2 = it.take().unwrap();
+                                out.call(|| i2.map(|x| x as u128).sum::<u128>());
+                            }
+                            b'E' => {
+                                // for_each through a by-ref adaptor, then what is left
+                                let mut i2 = it.take().unwrap();
+                                out.call(|| { let mut v = Vec::<u64>::new(); (&mut i2).for_each(|x| v.push(x as u64)); v.push(i2.len() as u64); v });
                             }
                             _ => out.push("UNKNOWN"),
                         }
